@@ -298,15 +298,22 @@ def load_reference():
     return _ref_cache
 
 
-def functions(tree, prefix=""):
-    """(qualname, node) of every function, outer before inner"""
+def functions(tree, prefix="", _seen=None):
+    """(qualname, node) of every function, outer before inner.  Several functions of one name in
+    one scope (the five `new_sfunc` closures of combineSfuncs, one per arm) are told apart by their
+    order: name, name#2, name#3, ..."""
+    seen = {} if _seen is None else _seen
     for ch in ast.iter_child_nodes(tree):
         if isinstance(ch, (ast.FunctionDef, ast.AsyncFunctionDef)):
-            yield prefix + ch.name, ch
+            k = seen.get(prefix + ch.name, 0) + 1
+            seen[prefix + ch.name] = k
+            yield prefix + ch.name + ("" if k == 1 else "#%d" % k), ch
         elif isinstance(ch, ast.ClassDef):
-            yield from functions(ch, prefix + ch.name + ".")
+            yield from functions(ch, prefix + ch.name + ".", seen)
         elif isinstance(ch, (ast.If, ast.For, ast.While, ast.With, ast.Try)):
-            yield from functions(ch, prefix)
+            yield from functions(ch, prefix, seen)
+            for h in getattr(ch, "handlers", []):
+                yield from functions(h, prefix, seen)
 
 
 def derename_tree(tree, rel, log=None):
